@@ -338,6 +338,8 @@ def ev_unary(op, node, m):
         if m.has_raise or not m.indexable:
             raise Invalid('sort needs an indexable dataset without raising elements')
         rev = bool(node['reverse'])
+        if node.get('sort_fn') == 'inverting':
+            rev = not rev  # the supplied sort function orders the other way round; it decides, not the builtin
         if node['key'] is None:
             if m.cap_keys != 'req' or m.taint or m.keys is None:
                 raise Invalid('key-less sort needs keys')
